@@ -188,7 +188,7 @@ func init() {
 
 	h.Register(&h.Monitor{
 		ID: "C17",
-		Rule: "random lines of 0..60 and occasionally 127..1025 vertices (nil, empty, single vertex, repeated vertices, zero-length segments, all-coincident, integer axis-parallel segments with integer lengths) resampled to N in {<=0, 1, 2, 3.., len-1, len, len+1, up to 1000} and to intervals d in {<=0, total/k exactly, total/k*(1+-ulp), > total, random}, with planar, equirectangular and haversine distance functions. " +
+		Rule: "random lines of 0..60 and occasionally 127..1025 vertices (nil, empty, single vertex, repeated vertices, zero-length segments, all-coincident, integer axis-parallel segments with integer lengths) resampled to N in {<=0, 1, 2, 3.., len-1, len, len+1, up to 1000} and to intervals d in {<=0, total/k exactly, total/k*(1+-ulp), > total, random}, with planar, equirectangular and haversine distance functions; out-and-back great-circle lines turning on the antimeridian (segments measuring a few ulps of the length before them), intervals asking for more than a million points, lines that are evenly spaced to within 1e-6 of a step. " +
 			"non-trivial = line of positive length and N >= 3 (interior points are judged against the arclength oracle); distinct = hash of (line, N or d, distance function)",
 		MinNontrivial: h.Fixed(10000, 1000000),
 		Assumptions: []string{
